@@ -8,6 +8,14 @@
 (*   m    the access discipline of RaceModel.tla that the call follows      *)
 (* RaceGen.tla draws programs from it, RaceTrace.tla judges with it whether *)
 (* a program that ran really had two processes in conflict on one object.   *)
+(*                                                                         *)
+(* A program's world holds 1..3 INSTANCES of every type; each process works *)
+(* on one instance (on[p]).  Instances 2 and 3 are built with no options at *)
+(* all, i.e. from the package-level defaults only: whatever a default holds *)
+(* by reference (an initial message, a random source, a comparer, a table)  *)
+(* is shared between instances.  objs doubles as the tag of the type whose  *)
+(* package-level defaults an operation goes through: two processes on       *)
+(* DIFFERENT instances of one type meet on those defaults (SharedDefaultPair).*)
 (***************************************************************************)
 EXTENDS Integers, Sequences, FiniteSets
 
@@ -69,31 +77,60 @@ OpTable == {
   Op("k.update", "book", {"book"}, TRUE, "CSet"),      Op("k.pull", "book", {"book"}, FALSE, "CPull"),
   Op("u.create", "pub", {"pub"}, TRUE, "CGen"),        Op("u.get", "pub", {"pub"}, FALSE, "CGet"),
   Op("u.list", "pub", {"pub"}, FALSE, "CGet"),         Op("u.update", "pub", {"pub"}, TRUE, "CSet"),
-  Op("u.delete", "pub", {"pub"}, TRUE, "CDel"),        Op("u.pull", "pub", {"pub"}, FALSE, "CPull")
+  Op("u.delete", "pub", {"pub"}, TRUE, "CDel"),        Op("u.pull", "pub", {"pub"}, FALSE, "CPull"),
+  \* package-level helpers and variables called from several goroutines (no instance; "w" here = builds on or goes
+  \* through package-level state that the call must not write: DefaultTweenOptions, DefaultFieldUpdateOptions,
+  \* modepb.DefaultModes, unitpb.siUnits, the pkg/time cut singletons, comparers held by a package-level variable)
+  Op("x.convert", "pkg", {"pkgvars"}, TRUE, "PkgDefault"),  Op("x.period", "pkg", {"pkgvars"}, TRUE, "PkgDefault"),
+  Op("x.segment", "pkg", {"pkgvars"}, TRUE, "PkgDefault"),  Op("x.cmp", "pkg", {"pkgvars"}, TRUE, "PkgDefault"),
+  Op("x.tween", "pkg", {"pkgvars"}, TRUE, "PkgDefault"),    Op("x.masks", "pkg", {"pkgvars"}, TRUE, "PkgDefault"),
+  Op("x.name", "pkg", {"pkgvars"}, TRUE, "PkgDefault"),     Op("x.modes", "pkg", {"pkgvars"}, TRUE, "PkgDefault"),
+  Op("x.genid", "pkg", {"pkgvars"}, TRUE, "PkgDefault"),    Op("x.newmodels", "pkg", {"pkgvars"}, TRUE, "PkgDefault"),
+  \* server.InfoServer (device registry)
+  Op("i.add", "pkg", {"info"}, TRUE, "RAdd"),          Op("i.rem", "pkg", {"info"}, TRUE, "RRemove"),
+  Op("i.list", "pkg", {"info"}, FALSE, "RHas")
 }
+\* the "dflt" family: trait models constructed with NO options (package default options only), one type per program
+DefaultModels == { "onoff", "light", "fanspeed", "mode", "enterleave", "airtemp", "airquality", "energy", "occupancy",
+                   "openclose", "meter", "access", "press", "vending", "waste", "metadata" }
+DefaultOps == UNION { { Op("d." \o t \o ".get", "dflt", {"d." \o t}, FALSE, "VGet"),
+                        Op("d." \o t \o ".upd", "dflt", {"d." \o t}, TRUE, "VSet"),
+                        Op("d." \o t \o ".pull", "dflt", {"d." \o t}, FALSE, "VPull") } : t \in DefaultModels }
+AllOps == OpTable \cup DefaultOps
 
-Kinds == { o.k : o \in OpTable }
-Kind(k) == CHOOSE o \in OpTable : o.k = k
+Kinds == { o.k : o \in AllOps }
+Kind(k) == CHOOSE o \in AllOps : o.k = k
 
-Families == << "val", "coll", "bus", "rtr", "wrap", "grp", "el", "par", "md", "hail", "book", "pub", "mixed" >>
+Families == << "val", "coll", "bus", "rtr", "wrap", "grp", "el", "par", "md", "hail", "book", "pub", "mixed", "dflt", "pkg", "dflt" >>
 
 \* the kinds a program of family f is drawn from; "grp" programs mix group executions with direct use of the
 \* objects the members call; "mixed" programs draw from everything
 FamilyKinds(f) ==
   CASE f = "grp"   -> { o.k : o \in { x \in OpTable : x.fam = "grp" } } \cup { "w.upd", "w.get", "w.pull", "v.set", "v.get", "v.pull" }
-    [] f = "mixed" -> Kinds
-    [] OTHER       -> { o.k : o \in { x \in OpTable : x.fam = f } }
+    [] f = "mixed" -> { o.k : o \in OpTable }
+    [] OTHER       -> { o.k : o \in { x \in AllOps : x.fam = f } }
+\* a "dflt" program uses one model type
+TypeKinds(t) == { o.k : o \in { x \in DefaultOps : x.objs = {"d." \o t} } }
 FamilyWriters(f) == { k \in FamilyKinds(f) : Kind(k).w }
 
-\* Two different processes have operations on one object and one of them writes it.  The processes of a program
-\* are released together and never synchronised by the harness, so such a pair is concurrent in the sense of
-\* the Go memory model unless the library orders it.
-ConflictPair(procs) ==
-  \E p, q \in 1..Len(procs) : p # q /\
-    \E i \in 1..Len(procs[p]), j \in 1..Len(procs[q]) :
-      /\ procs[p][i] \in Kinds /\ procs[q][j] \in Kinds
-      /\ Kind(procs[p][i]).w
-      /\ Kind(procs[p][i]).objs \cap Kind(procs[q][j]).objs # {}
+KnownKinds(procs) == \A p \in 1..Len(procs) : \A j \in 1..Len(procs[p]) : procs[p][j] \in Kinds
+\* Processes p and q have operations on one type of object and p writes it.
+Meet(procs, p, q) ==
+  \E i \in 1..Len(procs[p]), j \in 1..Len(procs[q]) :
+    Kind(procs[p][i]).w /\ Kind(procs[p][i]).objs \cap Kind(procs[q][j]).objs # {}
+\* Two different processes on the SAME instance have operations on one object and one of them writes it.  The
+\* processes of a program are released together and never synchronised by the harness, so such a pair is concurrent
+\* in the sense of the Go memory model unless the library orders it.
+ConflictPair(procs, on) ==
+  \E p, q \in 1..Len(procs) : p # q /\ on[p] = on[q] /\ Meet(procs, p, q)
+\* Two processes on DIFFERENT instances of one type, one of them writing: they share nothing but what the type's
+\* package-level defaults hold.
+SharedDefaultPair(procs, on) ==
+  \E p, q \in 1..Len(procs) : on[p] # on[q] /\ Meet(procs, p, q)
+\* what a program must exercise to count
+NonVacuous(procs, on, inst) ==
+  /\ KnownKinds(procs) /\ Len(on) = Len(procs) /\ \A p \in 1..Len(on) : on[p] \in 1..inst
+  /\ IF inst = 1 THEN ConflictPair(procs, on) ELSE SharedDefaultPair(procs, on)
 
 \* the access disciplines of RaceModel.tla a program exercises
 DisciplinesAll(procs) == UNION { { Kind(procs[p][i]).m : i \in 1..Len(procs[p]) } : p \in 1..Len(procs) }
